@@ -947,15 +947,25 @@ dt_strpd_special(const char *str, dt_dtyp_t typ, char **ep)
 	switch (typ) {
 	default:
 		break;
-	case DT_UMMULQURA:
-		res.ummulqura.y = strtoi_lim(sp, &sp, UMMULQURA_MIN_YEAR, UMMULQURA_MAX_YEAR);
-		sp += *sp == '-';
-		res.ummulqura.m = strtoi_lim(sp, &sp, 1, HIJRI_MONTHS_P_YEAR);
-		sp += *sp == '-';
-		res.ummulqura.d = strtoi_lim(sp, &sp, 1, 31);
+	case DT_UMMULQURA: {
+		int y, m, d;
 
+		y = strtoi_lim(sp, &sp, UMMULQURA_MIN_YEAR, UMMULQURA_MAX_YEAR);
+		sp += *sp == '-';
+		m = strtoi_lim(sp, &sp, 1, HIJRI_MONTHS_P_YEAR);
+		sp += *sp == '-';
+		d = strtoi_lim(sp, &sp, 1, 31);
+		if (UNLIKELY(y < 0 || m < 0 || d < 0)) {
+			/* missing or out of range, not one of ours */
+			sp = str;
+			goto out;
+		}
+		res.ummulqura.y = y;
+		res.ummulqura.m = m;
+		res.ummulqura.d = d;
 		res.typ = DT_UMMULQURA;
 		goto out;
+	}
 	}
 out:
 	/* set the end pointer */
